@@ -137,6 +137,18 @@ def spec_of_kind(kind):
     return {"p": [kind]}
 
 
+def _deep_has(v, tags):
+    from ..wire import tag
+    t = tag(v)
+    if t in tags:
+        return True
+    if t == "array":
+        return any(_deep_has(e, tags) for e in v)
+    if t == "object":
+        return any(_deep_has(e, tags) for e in v.values())
+    return False
+
+
 def tight_collection_spec(kind, values):
     from ..wire import tag
     prims, arr, obj = set(), False, False
@@ -153,6 +165,12 @@ def tight_collection_spec(kind, values):
                 prims.add(t)
     if not (prims or arr or obj):
         return None
+    if arr and obj and {"bytes", "integer", "float", "boolean", "null"} <= prims and not ({"regex", "timestamp"} & prims):
+        # vrl collapses such an element kind to its "json" unknown, whose nested collections exclude
+        # regex / timestamp (Kind::is_json is shallow; C19's subject): declaring it would misdeclare
+        # rows that nest those values
+        if any(_deep_has(v, ("regex", "timestamp")) for v in values):
+            return None
     elem = {"p": sorted(prims)}
     if arr:
         elem["a"] = {"k": {}, "u": {"inf": "any"}}
